@@ -7,7 +7,7 @@ import ast
 from fractions import Fraction
 
 from .program import AnalysisIncomplete, Ext, Func, Partial, norm
-from .sym import _akey, App, Poly, Rat, Sym, subst
+from .sym import _akey, App, Poly, Rat, Sym, subst, walk_atoms
 
 # canonical names of elementwise scalar functions
 UFUNCS = {
